@@ -205,7 +205,7 @@ def structures(ops):
     yield from mk("acc", apr, W("e"))
 
 
-LEAF_TEXTS = ["x", "(", ")", "a)b", "[", "]", " ", "", None, "α", "ℝ≤∞", "( ", "y]"]
+LEAF_TEXTS = ["x", "(", ")", "a)b", "[", "]", " ", "", None, "α", "ℝ≤∞", "( ", "y]", "α)x", "a≤b]c"]
 
 
 def leaves():
@@ -504,8 +504,221 @@ def greek_check(m):
     return None
 
 
+# ---------------------------------------------------------------------- call sites --
+def wrapper(tag, *kids):
+    """a non-math container element (shape / paragraph) -- description with a full Clark tag"""
+    return ["!" + tag, {}, None, list(kids)]
+
+
+def build_any(d):
+    tag, attrs, text, kids = d
+    e = ET.Element(tag[1:] if tag.startswith("!") else q(tag), {q(k): v for k, v in attrs.items()})
+    e.text = text
+    for k in kids:
+        e.append(build_any(k))
+    return e
+
+
+def site_scope():
+    """containers with inline / display / blank / nested formulas, every formula with its own text"""
+    import itertools as it
+    n = it.count()
+
+    def om(blank=False):
+        return E("oMath") if blank else E("oMath", run("f%d" % next(n)))
+
+    def blocks():
+        yield [om()]
+        yield [om(blank=True)]
+        yield [E("oMathPara", om())]
+        yield [E("oMathPara", E("oMathParaPr", E("jc", val="center")), om())]
+        yield [E("oMathPara")]
+        yield [E("oMathPara", om(), om())]
+        yield [E("oMathPara", om(blank=True), om())]
+        yield [wrapper("{urn:a14}m", om())]
+        yield [wrapper("{urn:a14}m", E("oMathPara", om()))]
+        yield [wrapper("{urn:a}r", E("t", text="plain"))]
+        yield [E("oMathPara", wrapper("{urn:x}box", om()))]          # an oMath that is not a child of the oMathPara
+    W = "{urn:p}txBody"
+    yield wrapper(W)
+    for a in blocks():
+        yield wrapper(W, *a)
+    for a in blocks():
+        for b in blocks():
+            yield wrapper(W, *(a + b))
+            yield wrapper(W, wrapper("{urn:a}p", *a), wrapper("{urn:a}p", *b))
+    for a in blocks():
+        for b in blocks():
+            for c in blocks():
+                yield wrapper(W, *(a + b), wrapper("{urn:a}p", *c))
+    # the container itself is a formula element
+    yield E("oMath", run("g"))
+    yield E("oMathPara", E("oMath", run("h")), E("oMath", run("i")))
+
+
+def site_expected(root, latex):
+    """documented result: display equations (first oMath child of every oMathPara, document order) first,
+    then every other oMath in document order; blank renderings are not listed"""
+    firsts = []
+    for para in root.iter(q("oMathPara")):
+        f = next((c for c in para if c.tag == q("oMath")), None)
+        if f is not None:
+            firsts.append(f)
+    out = [(latex(o), True) for o in firsts]
+    out += [(latex(o), False) for o in root.iter(q("oMath")) if not any(o is f for f in firsts)]
+    return [(l, d) for (l, d) in out if l.strip()]
+
+
+def pte_check(om):
+    """docx text assembly: m:oMath -> $latex$, m:oMathPara -> $$latex of its first m:oMath$$, only with
+    include_formulas and a non-blank rendering; run texts and formulas in document order"""
+    import importlib
+    dx = importlib.import_module("sharepoint2text.parsing.extractors.ms_modern.docx_extractor")
+    name = "docx_extractor.py::_process_text_element"
+
+    def o(t):
+        return E("oMath") if t is None else E("oMath", run(t))
+    forms = [o("f0"), o(None), E("oMathPara", o("f1")), E("oMathPara"), E("oMathPara", o("f2"), o("f3")),
+             E("oMathPara", o(None), o("f4")), E("oMathPara", E("oMathParaPr"), o("f5")),
+             E("oMathPara", wrapper("{urn:x}box", o("f6")))]
+
+    def want_of(d, inc):
+        if not inc:
+            return []
+        e = build_any(d)
+        if d[0] == "oMath":
+            l = om(e)
+            return ["$" + l + "$"] if l.strip() else []
+        f = next((c for c in e if c.tag == q("oMath")), None)
+        l = om(f) if f is not None else ""
+        return ["$$" + l + "$$"] if l.strip() else []
+    for d in forms:
+        for inc in (True, False):
+            parts = []
+            try:
+                dx._process_text_element(build_any(d), parts, inc)
+                got = parts
+            except Exception as e:  # noqa
+                got = f"{type(e).__name__}: {e}"
+            if got != want_of(d, inc):
+                ET.register_namespace("m", NS)
+                return {"reproduced": True, "target": name, "check": "site", "expected": want_of(d, inc), "observed": got,
+                        "inputs": {"xml": ET.tostring(build_any(d), encoding="unicode"), "tree": d, "include_formulas": inc}}
+    # a paragraph: runs and formulas in document order
+    def wr(t):
+        return ["!" + dx.W_R, {}, None, [["!" + dx.W_T, {}, t, []]]]
+    for a in forms:
+        for b in forms:
+            for inc in (True, False):
+                d = ["!" + dx.W_P, {}, None, [wr("a"), a, wr("b"), b, wr("c")]]
+                want = "a" + "".join(want_of(a, inc)) + "b" + "".join(want_of(b, inc)) + "c"
+                try:
+                    got = dx._extract_paragraph_content(build_any(d), inc)
+                except Exception as e:  # noqa
+                    got = f"{type(e).__name__}: {e}"
+                if got != want:
+                    return {"reproduced": True, "target": "docx_extractor.py::_extract_paragraph_content", "check": "site",
+                            "expected": want, "observed": got,
+                            "inputs": {"xml": ET.tostring(build_any(d), encoding="unicode"), "tree": d, "include_formulas": inc}}
+    return None
+
+
+def pptx_e2e_check(om):
+    """the pptx consumer of the formula list, end to end on the shipped fixture: once with its display equation,
+    once with the same equation stored inline (no m:oMathPara wrapper)"""
+    import importlib
+    import io
+    import zipfile
+    repo = os.environ.get("VERIF_REPO", "/repo")
+    fixture = os.path.join(repo, "sharepoint2text/tests/resources/modern_ms/pptx_formula_image.pptx")
+    if not os.path.exists(fixture):
+        return None
+    px = importlib.import_module("sharepoint2text.parsing.extractors.ms_modern.pptx_extractor")
+
+    def to_inline(xml):
+        a = xml.index("<m:oMathPara>")
+        b = xml.index("</m:oMathParaPr>") + len("</m:oMathParaPr>") if "</m:oMathParaPr>" in xml else a + len("<m:oMathPara>")
+        return (xml[:a] + xml[b:]).replace("</m:oMathPara>", "")
+    for label, tr, disp in (("display", lambda x: x, True), ("inline", to_inline, False)):
+        out = io.BytesIO()
+        with zipfile.ZipFile(fixture) as src, zipfile.ZipFile(out, "w", zipfile.ZIP_DEFLATED) as dst:
+            for info in src.infolist():
+                data = src.read(info.filename)
+                if info.filename == "ppt/slides/slide1.xml":
+                    xml = data.decode("utf-8")
+                    if xml.count("<m:oMathPara>") != 1:
+                        return None
+                    xml = tr(xml)
+                    data = xml.encode("utf-8")
+                    first = next(ET.fromstring(data).iter(q("oMath")))
+                    want_l = om(first)
+                dst.writestr(info, data)
+        out.seek(0)
+        want = [(want_l, disp)]
+        marker = ("$$%s$$" if disp else "$%s$") % want_l
+        try:
+            content = next(px.read_pptx(out))
+            got = [(f.latex, f.is_display) for s_ in content.slides for f in s_.formulas]
+            text = content.get_full_text()
+        except Exception as e:  # noqa
+            got, text = f"{type(e).__name__}: {e}", ""
+        if got != want or marker not in text:
+            return {"reproduced": True, "target": "pptx_extractor.py::read_pptx", "check": "site",
+                    "inputs": {"fixture": "sharepoint2text/tests/resources/modern_ms/pptx_formula_image.pptx", "variant": label},
+                    "expected": {"formulas": want, "text contains": marker}, "observed": {"formulas": got, "marker in text": marker in text}}
+    return None
+
+
+def site_check(which):
+    import importlib
+    import types
+    om = importlib.import_module("sharepoint2text.parsing.extractors.util.omml_to_latex").omml_to_latex
+    sites = []
+    if "_extract_formulas_from_context" not in which:
+        px = importlib.import_module("sharepoint2text.parsing.extractors.ms_modern.pptx_extractor")
+        sites.append(("pptx_extractor.py::_extract_formulas_from_element", lambda r: list(px._extract_formulas_from_element(r))))
+    if "_extract_formulas_from_element" not in which:
+        dx = importlib.import_module("sharepoint2text.parsing.extractors.ms_modern.docx_extractor")
+        sites.append(("docx_extractor.py::_extract_formulas_from_context",
+                      lambda r: [(f.latex, f.is_display) for f in dx._extract_formulas_from_context(types.SimpleNamespace(document_body=r))]))
+    tried = 0
+    if "_process_text_element" in which or which == "site:":
+        bad = pte_check(om)
+        if bad is not None:
+            return bad
+    if "_process_slide_from_context" in which or which == "site:":
+        bad = pptx_e2e_check(om)
+        if bad is not None:
+            return bad
+    if "_process_text_element" in which or "_process_slide_from_context" in which:
+        sites = []
+    for name, call in sites:
+        if "context" in name:
+            try:
+                got = call(None)
+            except Exception as e:  # noqa
+                got = f"{type(e).__name__}: {e}"
+            if got != []:
+                return {"reproduced": True, "target": name, "check": "site", "inputs": {"document_body": None}, "expected": [], "observed": got}
+        for d in site_scope():
+            tried += 1
+            root = build_any(d)
+            want = site_expected(root, om)
+            try:
+                got = call(root)
+            except Exception as e:  # noqa
+                got = f"{type(e).__name__}: {e}"
+            if got != want:
+                ET.register_namespace("m", NS)
+                return {"reproduced": True, "target": name, "check": "site", "tried": tried,
+                        "inputs": {"xml": ET.tostring(build_any(d), encoding="unicode"), "tree": d}, "expected": want, "observed": got}
+    return {"reproduced": False, "note": f"{tried} containers: every formula listed once, display/inline as documented, in order"}
+
+
 def category(obligation):
     o = obligation or ""
+    if "_extract_formulas_from_" in o or "_process_text_element" in o or "_process_slide_from_context" in o:
+        return "site:" + o
     if "convert_greek_and_symbols/" in o or "GREEK_TO_LATEX/" in o:
         return "greek"
     if "template." in o:
@@ -527,6 +740,8 @@ def find(req):
     fn, conv = m.omml_to_latex, m.convert_greek_and_symbols
     which = category(req.get("obligation"))
     seed = int(os.environ.get("VERIF_SEED", "0") or 0)
+    if which.startswith("site:"):
+        return site_check(which)
     if which == "none":
         try:
             r = fn(None)
@@ -578,16 +793,19 @@ def find(req):
             if bad is not None:
                 return {"reproduced": True, "target": "omml_to_latex.py::omml_to_latex", "check": bad[0],
                         "inputs": {"xml": xml_of(d), "tree": d}, "expected": bad[1], "observed": bad[2], "tried": tried}
-    return {"reproduced": False, "note": f"{tried} trees of the small scope satisfy the executable contract ({which})"}
+    sr = site_check("site:")          # list order at the docx / pptx call sites (BOUNDED) and everything proved about them
+    if sr.get("reproduced"):
+        return sr
+    return {"reproduced": False, "note": f"{tried} trees of the small scope satisfy the executable contract ({which}); " + sr["note"]}
 
 
 def rerun(stored):
     import importlib
     m = importlib.import_module("sharepoint2text.parsing.extractors.util.omml_to_latex")
     d = (stored.get("inputs") or {}).get("tree")
-    if d is None:
-        return find({"obligation": stored.get("obligation")})
     cat_ = category(stored.get("obligation"))
+    if d is None or cat_.startswith("site:"):
+        return find({"obligation": stored.get("obligation")})     # the site scope is tiny: search it again
     if cat_.startswith("template.") and len(d[3]) == 1:
         bad = template_check(m.omml_to_latex, m.convert_greek_and_symbols, d[3][0])
     else:
